@@ -2019,7 +2019,14 @@ def add(
 
         all_unstaged_paths = list(
             get_unstaged_changes(
-                index, r.path, filter_callback, preload_index, trust_ctime
+                index,
+                r.path,
+                filter_callback,
+                preload_index,
+                trust_ctime,
+                honor_filemode=config.get_boolean(
+                    b"core", b"filemode", os.name != "nt"
+                ),
             )
         )
 
@@ -3948,6 +3955,9 @@ def status(
                 preload_index,
                 trust_ctime,
                 max_stat,
+                honor_filemode=config.get_boolean(
+                    b"core", b"filemode", os.name != "nt"
+                ),
             )
         )
 
